@@ -569,7 +569,7 @@ class C01(Prop):
         if cfgbits[1] != res_bit:
             res.broken.append(Broken("correspondence", "probe_cfg", f"pickle escape differs by direction: args={cfgbits[1]} result={res_bit}; "
                                      "the model has one bit for both"))
-        self._campaign(ctx, res, ctx.scale(140, 2500), ctx.scale(6, 12), cfgbits)
+        self._campaign(ctx, res, ctx.scale(110, 2500), ctx.scale(6, 12), cfgbits)
         self._sweeps(ctx, res, cfgbits)
         return res
 
